@@ -624,6 +624,9 @@ def run(ctx):
 
     _mg.inverse_dof_map(ctx)  # (tools/wiring.py) barycentric / dual spaces are built from the coarse space's dof maps and segment options
     _sp.normal_multipliers(ctx)
+    from .. import bcsupport as _bcs
+
+    _bcs.bc_support(ctx)  # (tools/wiring.py) which barycentric cells carry a BC / RBC function: the whole vertex patches of its edge
 
 
 def _builder_chains(fn):
